@@ -496,6 +496,25 @@ def new_table(cx):
     return fn, b
 
 
+def recorded_settings(cx):
+    """The per-channel settings the RFI conversion reads ($PnG with the vendor fallback, $PnR):
+    the rows of the keyword table that feed amplifier_gain() and resolution()."""
+    fn = Fn(cx, NEW)
+    keep = ('channel count is $PAR', 'declared range R from $PnR', 'resolution is R', 'amplifier gain from $PnG',
+            "FlowJo Collector's Edition fallback: CytekPnnG, only when $PnG is absent", 'FlowJo fallback keyword',
+            'gain converted to float', 'gain list in channel order', 'stored: amplifier gains', 'stored: resolutions')
+    items = [it for it in NEW_ITEMS if it[0] in keep]
+    cx.need(len(items) == len(keep), 'recorded_settings: keyword table rows renamed')
+    metas = {m: NEW_METAS[m] for m in ('F', 'NCH', 'PNR', 'CI', 'RES', 'CAG', 'AG', 'OBJ', 'I3')}
+    b = inventory(fn, 'SETTINGS', items, metas)
+    for m in ('AG', 'RES'):
+        if m in b:
+            v = b[m][1]
+            ok = any(sym.stmt_nf(s_) == sym.parse_pattern('%s = tuple(%s)' % (v, v)) for s_ in fn.stmts(ast.Assign))
+            fn.ob('SETTINGS', 'per-channel list %s is frozen into a tuple' % v, ok, fn.ast, key='tuple-' + m)
+    return fn
+
+
 PARSE_TIME_ITEMS = [
     ('absent keyword -> absent time', 'if TSTR is None:'),
     ('fields separated by colons', "TL = TSTR.split(':')"),
